@@ -27,6 +27,10 @@ class Stalled(Exception):
     pass
 
 
+class InterleaveDeadlock(BaseException):
+    """the two threads of an exploration wait for each other's locks"""
+
+
 class Sched:
     def __init__(self, k, run_y, stall_s=5.0, k2=None):
         self.k, self.run_y, self.stall_s, self.k2 = k, run_y, stall_s, k2
@@ -115,10 +119,20 @@ class PLock:
         if s is not None and me is s.t1 and blocking and timeout == -1 and s.t2 is not None:
             # X may find the lock taken by Y a moment after the look above (Y was woken by X's own release): if Y then
             # stops at its own point holding it, let it go on
+            import time as _t
+            t0 = _t.monotonic()
             while not self.real.acquire(True, 0.002):
                 with self.meta:
                     if self.owner is s.t2:
                         s.resume_y.set()
+                # X waits for a lock Y holds while Y waits for a lock X holds (it said so: y_blocked) and nobody moves:
+                # the two threads wait for each other for good -- reported, not sat out
+                if s.y_blocked.is_set() and not s.y_done.is_set() and _t.monotonic() - t0 > max(1.0, s.stall_s / 2):
+                    with self.meta:
+                        owned_by_y = self.owner is s.t2
+                    if owned_by_y:
+                        raise InterleaveDeadlock(f"the first thread waits for {getattr(self, 'label', 'a lock')} held by the second, "
+                                                 f"which waits for a lock the first holds")
             r = True
         else:
             r = self.real.acquire(blocking, timeout)
@@ -253,6 +267,12 @@ def explore(build, op_x, op_y, observe, locks_of=lambda sys: [], fields_of=lambd
             x_error = None
             try:
                 op_x(sys)
+            except InterleaveDeadlock as e:
+                sched_ref[0] = None
+                s.active = False
+                stats['runs'] += 1
+                return ({'k': k, 'got': 'deadlock', 'allowed': allowed,
+                         'note': f'with the second thread started at scheduling point {k} of the first: {e}'}, stats)
             except BaseException as e:   # noqa
                 x_error = e
             s.finish()
